@@ -102,6 +102,11 @@ def analyse(run: Run, progs: list[dict], results: list[dict], tier: str,
                           f"{r['id']}: the partition's expression for {s['what']} "
                           f"{s['name']!r} on rank {s['rank']} differs from the unpartitioned "
                           f"global graph", record={"prog": p}, sig=sig_of(p, "static"))
+        for c in r.get("codegen", []):
+            run.violation(f"{r['id']}:codegen:{c['rank']}",
+                          f"{r['id']}: generate_code_for_partition fails on rank {c['rank']}'s "
+                          f"partition: {c['exc']}: {c['msg']}", record={"prog": p},
+                          observed=c, sig=dict(sig_of(p, "codegen"), exc=c["exc"]))
         for x in r.get("runs", []):
             if x.get("hang"):
                 raise MachineryError(f"{r['id']}: {x['hang']}")
